@@ -214,20 +214,28 @@ def _task_order(arg):
             if outcome_sig(k2, v2) != base:
                 viol.append(V(f'C20|order|{expr}', f"{expr} gives {str(val) if kind == 'ok' else type(val).__name__!r} under the sorted set order "
                               f"but {str(v2) if k2 == 'ok' else type(v2).__name__!r} under {ch}",
-                              _seed_code(expr), order_dependent=True, schedule=repr(ch)))
+                              'OUT = __import__("mc.props.c20", fromlist=["x"]).sig_of(%r)' % expr, order_dependent=True, schedule=repr(ch),
+                              value_code='from mc.props.c20 import sig_of\nOUT = sig_of(%r)' % expr))
                 break
     return viol, cnt
 
 
-def _seed_code(expr):
-    return ("import subprocess, sys, os, json\n"
-            "code = 'from mc import env, den\\nr = ' + %r + '\\nd, m = den.of_text(str(r))\\nprint(json.dumps([d, m]))'\n"
-            "code = 'import json\\n' + code.replace('r = ', 'try:\\n    r = ', 1).replace('\\nd, m', '\\nexcept Exception as e:\\n    print(json.dumps(type(e).__name__)); raise SystemExit\\nd, m', 1)\n"
-            "outs = set()\n"
-            "for seed in range(24):\n"
-            "    e = dict(os.environ, PYTHONHASHSEED=str(seed), PREGEX_VERIF_VSET='0')\n"
-            "    outs.add(subprocess.run([sys.executable, '-c', code], capture_output=True, text=True, env=e).stdout)\n"
-            "assert len(outs) == 1, outs\n" % (expr,))
+def sig_of(expr):
+    """canonical outcome of an expression in the current interpreter: exception name, class denotation, or parse tree"""
+    try:
+        r = eval(expr, dict(NS))
+    except Exception as e:  # noqa: BLE001
+        return ('raise', type(e).__name__)
+    text = str(r)
+    if hasattr(r, '_get_verbose_pattern'):
+        try:
+            return ('den',) + den.of_text(text)
+        except (re.error, ValueError, rx.Unparsable):
+            return ('text', text)
+    try:
+        return ('tree', rx.parse(text).tree)
+    except re.error:
+        return ('text', text)
 
 
 def run_orders(run):
@@ -321,8 +329,8 @@ def run_crossprocess(run):
             n += 1
             if not equivalent_texts(outs[0][j], out[j]):
                 run.add([V(f'C20|process|{e}', f"{e} is {outs[0][j]!r} under PYTHONHASHSEED={seeds[0]} but {out[j]!r} under PYTHONHASHSEED={seed}",
-                           _seed_code(e) if 'Any' in e else f"a = str({e})\n# compare across interpreters\nassert True",
-                           order_dependent=True)])
+                           'from mc.props.c20 import sig_of\nOUT = sig_of(%r)' % e, order_dependent=True,
+                           value_code='from mc.props.c20 import sig_of\nOUT = sig_of(%r)' % e)])
                 break
     return {'xp_expressions': len(exprs), 'xp_processes': k, 'xp_comparisons': n, 'xp_seeds': seeds}
 
